@@ -54,9 +54,17 @@ C13WellFormed(e, inv, npool) ==
 
 C13CallResults(e)        == e.outcome \in {OutcomeResults, OutcomeMixed}
 C13CallCatchableError(e) == e.outcome \in {OutcomeError, OutcomeMixed}
-\* documented process enders only (halt, halt_error, input at end of input, ...): the runner lists them, the
-\* spec pins which names may be listed at all (ExitNames)
-C13CallExit(e, inv, ExitNames) == e.outcome = OutcomeExit /\ inv[e.f].exit /\ e.fn \in ExitNames
+\* An orderly exit (the fq main loop returned a status; no Go runtime fault) is part of the protocol only for
+\*  - the documented process enders (halt, halt_error, input at end of input, repl, ...): the runner flags them,
+\*    the spec pins which names may be flagged at all (ExitNames);
+\*  - internal functions (class "internal", names starting with "_"): they are the plumbing of those documented
+\*    exits and of the interpreter state (_fatal_error, _cli_*, _global_state/1, _options_stack/1), so replacing
+\*    the state or calling an error callback legitimately ends the main loop with an error status.
+\* A public function that leaves the main loop although `try` was around it is rejected ("uncaught-exit").
+C13CallExit(e, inv, ExitNames) ==
+    /\ e.outcome = OutcomeExit
+    /\ \/ inv[e.f].exit /\ e.fn \in ExitNames
+       \/ inv[e.f].cls = "internal"
 
 C13Accept(e, inv, ExitNames) ==
     \/ C13CallResults(e)
